@@ -36,7 +36,10 @@ MANIFEST_ENTRY = dict(
          'rejects them).  Trusted: TLC, harness/exact.py (own_unitary contraction, argmax / phase-class discretiser), '
          'harness/compile_common.py (input builders, embedding of basis states, tolerance = f(synthesis_epsilon) <= 0.05 while '
          'two different members of the domain are >= 0.13 apart), harness/sim.py + simcompile.py (the deterministic kernel the '
-         'real runtime classes run on).  A case that does not finish within its wall-clock bound is reported as a note, not a verdict.',
+         'real runtime classes run on).  A case that does not finish within its wall-clock bound is reported as a note, not a verdict.  '
+         'Every run ends with an oracle self-test: corrupted copies of accepted observations (column moved, relative phase changed, '
+         'outside the budget, mapping out of range / repeated, measurement moved / re-wired / dropped, status raised) must each be '
+         'rejected by CompileSem.tla with its clause.',
     ref='DESIGN.md section 4 / C01',
 )
 
